@@ -19,6 +19,28 @@ CLAIMED = {
         technique='contract-based deductive verification: VC generation from the real Python AST (pyvc) + z3, '
                   'induction lemmas; bounded enumeration only at the exec boundary',
         design_ref='DESIGN.md 7 C01'),
+    'C03': dict(
+        text='Deductive verification of merge_middlewares against a recursive merge specification (loop invariant, all '
+             'list lengths), of Middleware.__eq__/__ne__, and of the list order handed to the chain compiler by '
+             'make_middleware_chain; the process_request template is read from the imported module, instantiated and '
+             'symbolically executed by the same engine (call trace: endpoint, then render only for non-Responses; '
+             'exceptions escape unchanged); induction lemmas give outer-first and unique-once.',
+        note='The step from the generated nested-def text to run-time nesting is Python closure semantics (A-exec), '
+             'policed by a bounded enumeration of the real build_chain_str output parsed with ast; behaviour of user '
+             'middleware code is not decided.',
+        technique='contract-based deductive verification (pyvc VC generation over the real AST + z3), template '
+                  'obligations by symbolic execution, induction lemmas',
+        design_ref='DESIGN.md 7 C03'),
+    'C04': dict(
+        text='Deductive verification of check_middlewares (nested loops over every provides tuple, counting invariant '
+             'per name: NameError only if some name is offered by two sources, normal return only if none is), '
+             'check_middleware (first parameter must be next) and of the next/context clauses of make_middleware_chain; '
+             'RESERVED_ARGS checked by evaluation on the imported module.',
+        note='provides tuples are treated as duplicate-free name sets (the code is stricter for duplicates inside one '
+             'tuple); a truthy request/endpoint/render attribute is assumed callable; undecided clauses fall back to a '
+             'bounded native refutation search which can only produce counterexamples.',
+        technique='contract-based deductive verification (pyvc + z3), quantified counting invariants',
+        design_ref='DESIGN.md 7 C04'),
 }
 
 REASONS = {}
